@@ -86,6 +86,7 @@ func checkChain(r *mon.Run, es []elem, class string, sampleEvery int) {
 	var buf bytes.Buffer
 	var werr error
 	want := refEncode(es) // (before the writer sees the chain)
+	gen.FailedCallFirst(nCase, func(w io.Writer) { toChain(es).Write(w) })
 	p, pv := r.Call("write/"+d, nil, func() { werr = toChain(es).Write(&buf) })
 	det := map[string]any{"chain": d, "class": class, "valid_pattern": valid(es), "write_error": fmt.Sprint(werr), "got": mon.Short(buf.Bytes()), "want": mon.Short(want)}
 	outcome := "ok"
